@@ -73,7 +73,7 @@ func (x *bctx) buildV2(kind string) bool {
 		var e types.SiafundElement
 		found := false
 		// legacy window: ephemeral siafund parents are allowed below the fix height
-		if x.h < n.HardforkV2.EphemeralOutputHeight && len(x.newSF) > 0 && x.rng.IntN(2) == 0 {
+		if !c.NoLegacyEphemeralSF && x.h < n.HardforkV2.EphemeralOutputHeight && len(x.newSF) > 0 && x.rng.IntN(2) == 0 {
 			for _, i := range x.rng.Perm(len(x.newSF)) {
 				cand := x.newSF[i].el
 				l := c.W.Locks[cand.SiafundOutput.Address]
@@ -301,6 +301,9 @@ func (x *bctx) v2Revise() *types.FileContractID {
 		return nil
 	}
 	hostV := floor.Add(randAmount(x.rng, sum.Sub(floor).Add(types.NewCurrency64(1))).Sub(types.NewCurrency64(1)))
+	if x.h < n.HardforkV2.EphemeralOutputHeight && x.rng.IntN(2) == 0 {
+		hostV = floor // legacy window: the host value may drop below the missed host value
+	}
 	if hostV.Cmp(sum) > 0 {
 		hostV = sum
 	}
